@@ -826,6 +826,30 @@ by apply: (IH _ _ _ _ _ _ _ _ r0).
 Qed.
 
 End Loop.
+
+(* the loop of lp_algebraic_number_positive_root: same argument, the enclosure is the over-approximated root interval
+   whose precision grows with the iteration (premise root_encloses: C15 + C07_root_approx_floor/_ceil) *)
+Section RootLoop.
+Variable n : N.
+Hypothesis root_encloses : forall I (prec : N) u w,
+  iv_mem I u -> 0 <= w -> w ^+ (N.to_nat n) = u -> iv_mem (iv_root_overapprox I n prec) w.
+
+Lemma root_loop_sound fuel : forall prec a (rts : seq anum) va v r a' b' r0,
+  Den a va -> 0 <= v -> v ^+ (N.to_nat n) = va -> List.In r0 rts -> Den r0 v ->
+  an_root_loop fuel n prec a rts = OpOk r a' b' -> Den r v /\ Den a' va.
+Proof.
+elim: fuel => [|f IH] prec a rts va v r a' b' r0 Da v0 vn rin D0 //=.
+case: rts rin => [|r1 [|r2 rs]] // rin.
+  by move=> [<- <- _]; split=> //; case: rin => [->|[]].
+set I := iv_root_overapprox _ _ _; set rts := (r1 :: r2 :: rs) in rin *.
+have MI : iv_mem I v by apply: root_encloses vn => //; apply: Den_iv_mem.
+have kin := filter_keeps rin D0 MI.
+case F: (an_filter_roots rts I) kin => [|s1 [|s2 ss]] kin //; last first.
+  by apply: (IH _ _ _ _ _ _ _ _ (an_refine r0)) vn _ _;
+    [exact: refine_Den | exact: v0 | exact: List.in_map | exact: refine_Den].
+by apply: (IH _ _ _ _ _ _ _ _ r0) vn _ _.
+Qed.
+End RootLoop.
 End OpLoop.
 
 (* ------------------------------------------------------------------ annihilating polynomial of a sum (MathComp's
@@ -982,3 +1006,634 @@ exact: bisect_apart_Den D1 D2 B.
 Qed.
 
 End CmpKeeps.
+
+(* ------------------------------------------------------------------ comparison of two numbers: full soundness *)
+(* saturation tactic for goals about a linear order *)
+Ltac ord_new t :=
+  let T := type of t in
+  lazymatch goal with
+  | _ : T |- _ => fail
+  | _ => have := t; intro
+  end.
+Ltac ord_step :=
+  match goal with
+  | H : is_true (?a < ?a) |- _ => by rewrite ltxx in H
+  | H1 : is_true (?a < ?b), H2 : is_true (?b < ?c) |- _ => ord_new (lt_trans H1 H2)
+  | H1 : is_true (?a <= ?b), H2 : is_true (?b < ?c) |- _ => ord_new (le_lt_trans H1 H2)
+  | H1 : is_true (?a < ?b), H2 : is_true (?b <= ?c) |- _ => ord_new (lt_le_trans H1 H2)
+  | H1 : is_true (?a <= ?b), H2 : is_true (?b <= ?c) |- _ => ord_new (le_trans H1 H2)
+  end.
+Ltac ord_contra := repeat ord_step.
+Ltac ord :=
+  match goal with
+  | |- is_true (?a < ?b) => case: (ltP a b) => // ?; ord_contra
+  | |- is_true (?a <= ?b) => case: (leP a b) => // ?; ord_contra
+  | |- ?a = ?b => apply/eqP; rewrite eq_le; apply/andP; split; ord
+  | |- Logic.False => ord_contra
+  end.
+
+Section CmpFull.
+Variable R : rcfType.
+Local Notation dyR := (@dyR R).
+Local Notation polyR := (@polyR R).
+Implicit Types (v w : R) (x y : anum).
+
+Definition lo x : R := dyR (an_a x).
+Definition hi x : R := dyR (an_b x).
+
+(* the intervals are separated (ordered), as far as the final comparison of the lower ends needs *)
+Definition Sep x y : Prop :=
+  match an_f x, an_f y with
+  | None, None => Logic.True
+  | None, Some _ => lo x <= lo y \/ hi y <= lo x
+  | Some _, None => lo y <= lo x \/ hi x <= lo y
+  | Some _, Some _ => hi x <= lo y \/ hi y <= lo x
+  end.
+
+Definition cmp_final x y : Z :=
+  let c := dy_cmp (an_a x) (an_a y) in
+  if Z.eqb c 0 then
+    if negb (an_is_point x) && an_is_point y then 1%ZZ
+    else if an_is_point x && negb (an_is_point y) then (-1)%ZZ
+    else c
+  else c.
+
+Lemma sgr_lt (a b : R) : a < b -> sgr (a - b) = -1.
+Proof. by move=> H; rewrite ltr0_sg // subr_lt0. Qed.
+Lemma sgr_gt (a b : R) : b < a -> sgr (a - b) = 1.
+Proof. by move=> H; rewrite gtr0_sg // subr_gt0. Qed.
+
+Lemma cmp_final_sound x y v w : Den x v -> Den y w -> Sep x y ->
+  ZR (Z.sgn (cmp_final x y)) = sgr (v - w).
+Proof.
+move=> Dx Dy; rewrite /Sep /cmp_final /an_is_point.
+have C := dy_cmpR R (an_a x) (an_a y); have E := dy_cmp_eq R (an_a x) (an_a y).
+case Ex: (an_f x) Dx => [p|] Dx; case Ey: (an_f y) Dy => [q|] Dy /=.
+- have [_ /andP[av vb] _] := Den_bounds Ex Dx; have [_ /andP[aw wb] _] := Den_bounds Ey Dy.
+  rewrite -/(lo x) -/(hi x) -/(lo y) -/(hi y) in av vb aw wb C E *.
+  move=> S; rewrite if_same C; case: S => S.
+  + by rewrite !sgr_lt //; ord.
+  + by rewrite !sgr_gt //; ord.
+- move: Dy; rewrite /Den Ey => Dy; rewrite Dy.
+  have [_ /andP[av vb] _] := Den_bounds Ex Dx.
+  rewrite -/(lo x) -/(hi x) -/(lo y) in av vb C E *.
+  move=> S; rewrite E; case: eqP => [e|ne].
+  + by rewrite ZR1 sgr_gt // -e.
+  + rewrite C; case: S => S.
+    * have lt : lo y < lo x by rewrite lt_neqAle S andbT eq_sym; apply/eqP.
+      by rewrite !sgr_gt //; ord.
+    * by rewrite !sgr_lt //; ord.
+- move: Dx; rewrite /Den Ex => Dx; rewrite Dx.
+  have [_ /andP[aw wb] _] := Den_bounds Ey Dy.
+  rewrite -/(lo x) -/(hi y) -/(lo y) in aw wb C E *.
+  move=> S; rewrite E; case: eqP => [e|ne].
+  + by rewrite ZRN1 sgr_lt // e.
+  + rewrite C; case: S => S.
+    * have lt : lo x < lo y by rewrite lt_neqAle S andbT; apply/eqP.
+      by rewrite !sgr_lt //; ord.
+    * by rewrite !sgr_gt //; ord.
+- by move: Dx Dy; rewrite /Den Ex Ey => -> -> _; rewrite if_same.
+Qed.
+
+
+(* ---- shapes of one refinement with a point / one bisection *)
+Lemma rwp_shape x q : let x1 := an_refine_with_point x q in
+  match an_f x with
+  | None => x1 = x
+  | Some p =>
+    [\/ x1 = x /\ ~~ (lo x < dyR q < hi x),
+        [/\ an_f x1 = None, lo x1 = dyR q & lo x < dyR q < hi x],
+        [/\ an_f x1 = Some p, lo x1 = dyR q, hi x1 = hi x & lo x < dyR q < hi x] |
+        [/\ an_f x1 = Some p, lo x1 = lo x, hi x1 = dyR q & lo x < dyR q < hi x]]
+  end.
+Proof.
+rewrite /an_refine_with_point; case E: (an_f x) => [p|] //=.
+rewrite (iv_contains_open R q E) -/(lo x) -/(hi x).
+case: ifP => [ins|/negbT nin]; last by constructor 1.
+case: ifP => _; first by constructor 2; split.
+by case: ifP => _; [constructor 3|constructor 4]; split.
+Qed.
+
+Lemma not_inside (a b c : R) : ~~ (a < c < b) -> c <= a \/ b <= c.
+Proof.
+rewrite negb_and -!leNgt => /orP[H|H]; [left|right]; exact: H.
+Qed.
+
+(* a point against a number refined with that point: separated *)
+Lemma sep_point_l x y : an_f x = None -> Sep x (an_refine_with_point y (an_a x)).
+Proof.
+move=> Ex; have := rwp_shape y (an_a x); rewrite /Sep Ex.
+case Ey: (an_f y) => [q|] /=; last by move=> ->; rewrite Ey.
+case=> [[-> /not_inside H]|[-> _ _]|[-> e1 _ _]|[-> _ e2 _]] //.
+- by rewrite Ey.
+- by left; rewrite e1.
+- by right; rewrite e2.
+Qed.
+Lemma sep_point_r x y : an_f y = None -> Sep (an_refine_with_point x (an_a y)) y.
+Proof.
+move=> Ey; have := rwp_shape x (an_a y); rewrite /Sep Ey.
+case Ex: (an_f x) => [q|] /=; last by move=> ->; rewrite Ex.
+case=> [[-> /not_inside H]|[-> _ _]|[-> e1 _ _]|[-> _ e2 _]] //.
+- by rewrite Ex.
+- by left; rewrite e1.
+- by right; rewrite e2.
+Qed.
+
+(* a proper number refined with two points L < H lying in the closure of its interval *)
+Definition facts2 x x2 (L H : R) : Prop :=
+  [/\ lo x <= lo x2, hi x2 <= hi x & lo x2 < hi x2] /\
+  [/\ L <= lo x2 \/ hi x2 <= L, H <= lo x2 \/ hi x2 <= H,
+      [\/ lo x2 = lo x, lo x2 = L | lo x2 = H] & [\/ hi x2 = hi x, hi x2 = L | hi x2 = H]].
+
+Lemma rwp2_facts x p (lq hq : dyadic) : an_f x = Some p -> lo x < hi x ->
+  let x2 := an_refine_with_point (an_refine_with_point x lq) hq in
+  let L := dyR lq in let H := dyR hq in
+  L < H ->
+  match an_f x2 with
+  | None => lo x2 = L \/ lo x2 = H
+  | Some _ => facts2 x x2 L H
+  end.
+Proof.
+move=> Ex ab /= LH; rewrite /facts2.
+have := rwp_shape x lq; rewrite Ex.
+set x1 := an_refine_with_point x lq.
+case=> [[e1 /not_inside n1]|[f1 l1 i1]|[f1 l1 h1 /andP[i1 i1']]|[f1 l1 h1 /andP[i1 i1']]].
+- (* x1 = x *)
+  have := rwp_shape x1 hq; rewrite e1 Ex.
+  case=> [[-> /not_inside n2]|[-> l2 _]|[-> l2 h2 /andP[i2 i2']]|[-> l2 h2 /andP[i2 i2']]].
+  + by rewrite Ex; split; [split|split=> //; [constructor 1|constructor 1]].
+  + by right.
+  + rewrite l2 h2; split; [split; ord|split]; [left; ord|by left|by constructor 3|by constructor 1].
+  + rewrite l2 h2; split; [split; ord|split]; [|by right|by constructor 1|by constructor 3].
+    by case: n1 => n1; [left; ord|right; ord].
+- (* x1 = point L *)
+  by have := rwp_shape x1 hq; rewrite f1 => ->; rewrite f1; left.
+- (* x1 = (L, hi x) *)
+  have := rwp_shape x1 hq; rewrite f1 l1 h1.
+  case=> [[-> /not_inside n2]|[-> l2 _]|[-> l2 h2 /andP[i2 i2']]|[-> l2 h2 /andP[i2 i2']]].
+  + rewrite f1 l1 h1; split; [split; ord|split]; [by left|by []|by constructor 2|by constructor 1].
+  + by right.
+  + rewrite l2 h2; split; [split; ord|split]; [left; ord|by left|by constructor 3|by constructor 1].
+  + rewrite l2 h2; split; [split; ord|split]; [by left|by right|by constructor 2|by constructor 3].
+- (* x1 = (lo x, L): H > L is not inside *)
+  have := rwp_shape x1 hq; rewrite f1 l1 h1.
+  case=> [[-> /not_inside n2]|[-> l2 _]|[-> l2 h2 /andP[i2 i2']]|[-> l2 h2 /andP[i2 i2']]].
+  + rewrite f1 l1 h1; split; [split; ord|split]; [by right|by []|by constructor 1|by constructor 2].
+  + by right.
+  + by exfalso; ord.
+  + by exfalso; ord.
+Qed.
+
+(* two overlapping pieces cut out of x and y at L = max of the lower ends and H = min of the upper ends: both are ]L, H[ *)
+Lemma overlap_lo x y x2 y2 (L H : R) :
+  lo x <= L -> (L = lo x \/ L = lo y) -> (H = hi x \/ H = hi y) ->
+  facts2 x x2 L H -> facts2 y y2 L H ->
+  lo y2 < hi x2 -> lo x2 < hi y2 -> lo x2 = L.
+Proof.
+move=> xL Ldef Hdef [[x_lo x_hi x_ne] [xL' xH' xlo_c _]] [[y_lo y_hi y_ne] [_ yH' _ _]] ov1 ov2.
+case: xlo_c => [e|//|e].
+- case: xL' => [LL|hL]; first by rewrite e; rewrite e in LL; ord.
+  by exfalso; case: Ldef => Le; rewrite Le in hL; rewrite ?e in x_ne ov2; ord.
+- exfalso; rewrite e in x_ne ov2.
+  case: Hdef => He; first by rewrite He in x_ne; ord.
+  case: yH' => yH'; last by ord.
+  by rewrite He in yH'; ord.
+Qed.
+
+Lemma overlap_hi x y x2 y2 (L H : R) :
+  H <= hi x -> (L = lo x \/ L = lo y) -> (H = hi x \/ H = hi y) ->
+  facts2 x x2 L H -> facts2 y y2 L H ->
+  lo y2 < hi x2 -> lo x2 < hi y2 -> hi x2 = H.
+Proof.
+move=> xH Ldef Hdef [[x_lo x_hi x_ne] [xL' xH' _ xhi_c]] [[y_lo y_hi y_ne] [yL' _ _ _]] ov1 ov2.
+case: xhi_c => [e|e|//].
+- case: xH' => [HH|hH]; last by rewrite e; rewrite e in hH; ord.
+  by exfalso; case: Hdef => He; rewrite He in HH; rewrite ?e in x_ne ov1; ord.
+- exfalso; rewrite e in x_ne ov1.
+  case: Ldef => Le; first by rewrite Le in x_ne; ord.
+  case: yL' => yL'; first by ord.
+  by rewrite Le in yL'; ord.
+Qed.
+
+Definition after2 x x2 (L H : R) : Prop :=
+  match an_f x2 with None => lo x2 = L \/ lo x2 = H | Some _ => facts2 x x2 L H end.
+
+Lemma prep_both x y x2 y2 (L H : R) :
+  lo x <= L -> lo y <= L -> (L = lo x \/ L = lo y) ->
+  H <= hi x -> H <= hi y -> (H = hi x \/ H = hi y) ->
+  after2 x x2 L H -> after2 y y2 L H ->
+  Sep x2 y2 \/ [/\ an_f x2 <> None, an_f y2 <> None, lo x2 = lo y2 & hi x2 = hi y2].
+Proof.
+move=> xL yL Ldef xH yH Hdef; rewrite /after2 /Sep.
+have Ldef' : L = lo y \/ L = lo x by case: Ldef; [right|left].
+have Hdef' : H = hi y \/ H = hi x by case: Hdef; [right|left].
+case Ex: (an_f x2) => [p|]; case Ey: (an_f y2) => [q|].
+- move=> Fx Fy.
+  case: (leP (hi x2) (lo y2)) => [?|ov1]; first by left; left.
+  case: (leP (hi y2) (lo x2)) => [?|ov2]; first by left; right.
+  right; split=> //.
+  + by rewrite (overlap_lo xL Ldef Hdef Fx Fy ov1 ov2) (overlap_lo yL Ldef' Hdef' Fy Fx ov2 ov1).
+  + by rewrite (overlap_hi xH Ldef Hdef Fx Fy ov1 ov2) (overlap_hi yH Ldef' Hdef' Fy Fx ov2 ov1).
+- move=> [_ [xL' xH' _ _]] [e|e]; left; rewrite e.
+  + by case: xL' => ?; [left|right].
+  + by case: xH' => ?; [left|right].
+- move=> [e|e] [_ [yL' yH' _ _]]; left; rewrite e.
+  + by case: yL' => ?; [left|right].
+  + by case: yH' => ?; [left|right].
+- by move=> _ _; left.
+Qed.
+
+(* ---- the test lp_dyadic_interval_disjoint on the intervals of two numbers gives separation *)
+Lemma disjoint_Sep x y : iv_disjoint (an_ivl_of x) (an_ivl_of y) = true -> Sep x y.
+Proof.
+rewrite /Sep; case Ex: (an_f x) => [p|]; case Ey: (an_f y) => [q|] //.
+- rewrite /iv_disjoint /an_ivl_of Ex Ey /= !(dy_cmp_lt R) !(dy_cmp_eq R) !andbT -/(hi x) -/(lo y) -/(hi y) -/(lo x).
+  case: (ltP (hi x) (lo y)) => [h _|h]; first by left; exact: ltW.
+  case: (eqVneq (hi x) (lo y)) => [-> _|_]; first by left.
+  case: (ltP (hi y) (lo x)) => [g _|g]; first by right; exact: ltW.
+  by case: (eqVneq (hi y) (lo x)) => [-> _|_] //; right.
+- have Px : iv_pt (an_ivl_of x) = false by rewrite /an_ivl_of Ex.
+  have Py : iv_pt (an_ivl_of y) = true by rewrite /an_ivl_of Ey.
+  have Ly : iv_lo (an_ivl_of y) = an_a y by rewrite /an_ivl_of Ey.
+  by rewrite /iv_disjoint Px Py Ly (iv_contains_open R (an_a y) Ex) => /not_inside.
+- have Px : iv_pt (an_ivl_of x) = true by rewrite /an_ivl_of Ex.
+  have Lx : iv_lo (an_ivl_of x) = an_a x by rewrite /an_ivl_of Ex.
+  by rewrite /iv_disjoint Px Lx (iv_contains_open R (an_a x) Ey) => /not_inside.
+Qed.
+
+(* ---- the intersection of two proper intervals that are not declared disjoint *)
+Lemma intersection_facts x y p q : an_f x = Some p -> an_f y = Some q ->
+  lo x < hi x -> lo y < hi y -> iv_disjoint (an_ivl_of x) (an_ivl_of y) = false ->
+  let I := iv_intersection (an_ivl_of x) (an_ivl_of y) in
+  let L := dyR (iv_lo I) in let H := dyR (iv_hi I) in
+  [/\ iv_pt I = false, L < H, lo x <= L /\ lo y <= L, (L = lo x \/ L = lo y) &
+      (H <= hi x /\ H <= hi y) /\ (H = hi x \/ H = hi y)].
+Proof.
+move=> Ex Ey abx aby; rewrite /iv_disjoint /iv_intersection /an_ivl_of Ex Ey /=.
+rewrite !(dy_cmp_lt R) !(dy_cmp_eq R) !andbT -/(hi x) -/(lo y) -/(hi y) -/(lo x).
+case: (ltrgtP (hi x) (lo y)) => [//|h1|//] /=; case: (ltrgtP (hi y) (lo x)) => [//|h2|//] /= _.
+case: (ltP (lo x) (lo y)) => [l1|l1]; case: (ltP (hi x) (hi y)) => [l2|l2] /=;
+  rewrite -?/(hi x) -?/(lo y) -?/(hi y) -?/(lo x); split=> //; try (by split=> //; exact: ltW);
+  try (by left); try (by right).
+- by split; [split; [|exact: ltW]|left].
+- by split; [split|right].
+- by split; [split; [|exact: ltW]|left].
+- by split; [split|right].
+Qed.
+
+(* ---- one bisection: shape of the result *)
+Lemma refine_dir_shape x p : an_f x = Some p -> lo x < hi x ->
+  let m := (lo x + hi x) / 2%:R in
+  let x1 := (an_refine_dir x).1 in let d := (an_refine_dir x).2 in
+  [\/ [/\ d = 0%ZZ, an_f x1 = None & lo x1 = m],
+      [/\ d = 1%ZZ, an_f x1 = Some p, lo x1 = m & hi x1 = hi x] |
+      [/\ d = (-1)%ZZ, an_f x1 = Some p, lo x1 = lo x & hi x1 = m]].
+Proof.
+move=> Ex ab /=; rewrite /an_refine_dir Ex.
+have M : dyR (an_dy_mid (an_a x) (an_b x)) = (lo x + hi x) / 2%:R by rewrite dy_midR.
+case: ifP => _; first by constructor 1; split.
+by case: ifP => _; [constructor 2|constructor 3]; split.
+Qed.
+
+Lemma bisect_apart_Sep fuel : forall x y x' y' p q, an_f x = Some p -> an_f y = Some q ->
+  lo x < hi x -> lo x = lo y -> hi x = hi y ->
+  an_bisect_apart fuel x y = Some (x', y') -> Sep x' y'.
+Proof.
+elim: fuel => [|f IH] x y x' y' p q Ex Ey ab el eh //=.
+have aby : lo y < hi y by rewrite -el -eh.
+have Sx := refine_dir_shape Ex ab; have Sy := refine_dir_shape Ey aby.
+have mm := mid_between ab; case/andP: (mm) => m1 m2.
+case: (an_refine_dir x) Sx => [x1 d1] /= Sx; case: (an_refine_dir y) Sy => [y1 d2] /= Sy.
+rewrite -el -eh in Sy.
+case: Sx => [[-> fx lx]|[-> fx lx hx]|[-> fx lx hx]]; case: Sy => [[-> fy ly]|[-> fy ly hy]|[-> fy ly hy]] //=;
+  try (move=> [<- <-]; rewrite /Sep fx fy //).
+- by left; rewrite lx ly.
+- by right; rewrite lx hy.
+- by left; rewrite lx ly.
+- by apply: (IH _ _ _ _ _ _ fx fy); rewrite ?lx ?hx ?ly ?hy.
+- by right; rewrite lx hy.
+- by right; rewrite hx ly.
+- by left; rewrite hx ly.
+- by apply: (IH _ _ _ _ _ _ fx fy); rewrite ?lx ?hx ?ly ?hy.
+Qed.
+
+(* ---- lp_algebraic_number_cmp in three phases *)
+Definition cmp_prep x y : anum * anum :=
+  if negb (iv_disjoint (an_ivl_of x) (an_ivl_of y)) then
+    let I := iv_intersection (an_ivl_of x) (an_ivl_of y) in
+    let x1 := an_refine_with_point x (iv_lo I) in
+    let y1 := an_refine_with_point y (iv_lo I) in
+    if negb (iv_pt I) then (an_refine_with_point x1 (iv_hi I), an_refine_with_point y1 (iv_hi I)) else (x1, y1)
+  else (x, y).
+
+Definition cmp_st (fuel : nat) (gcdf : UPoly.poly -> UPoly.poly -> UPoly.poly) x1 y1 : option (bool * anum * anum) :=
+  match an_f x1, an_f y1 with
+  | Some p, Some q =>
+    if iv_equals (an_ivl_of x1) (an_ivl_of y1) then
+      let g := gcdf p q in
+      let sa := an_psgn_dy g (an_a x1) in
+      let sb := an_psgn_dy g (an_b x1) in
+      if Z.ltb (sa * sb) 0 then Some (true, an_reduce_polynomial x1 g sa sb, an_reduce_polynomial y1 g sa sb)
+      else match an_bisect_apart fuel x1 y1 with Some (x2, y2) => Some (false, x2, y2) | None => None end
+    else Some (false, x1, y1)
+  | _, _ => Some (false, x1, y1)
+  end.
+
+Definition cmp_fin (st : option (bool * anum * anum)) : option (Z * anum * anum) :=
+  match st with
+  | None => None
+  | Some (equal, x2, y2) => if equal then Some (0%ZZ, x2, y2) else Some (cmp_final x2 y2, x2, y2)
+  end.
+
+Lemma an_cmpE fuel gcdf x y :
+  an_cmp fuel gcdf x y = cmp_fin (cmp_st fuel gcdf (cmp_prep x y).1 (cmp_prep x y).2).
+Proof.
+rewrite /an_cmp /cmp_fin /cmp_st /cmp_prep /cmp_final.
+case: (if negb _ then _ else _) => x1 y1 /=.
+case: (match an_f x1 with Some _ => _ | None => _ end) => [[[e x2] y2]|] //.
+case: e => //; case: (Z.eqb _ 0) => //; case: (_ && _) => //; by case: (_ && _).
+Qed.
+
+Lemma rwp_point x q : an_f x = None -> an_refine_with_point x q = x.
+Proof. by rewrite /an_refine_with_point => ->. Qed.
+
+Lemma iv_equals_complete x y p q : an_f x = Some p -> an_f y = Some q ->
+  lo x = lo y -> hi x = hi y -> iv_equals (an_ivl_of x) (an_ivl_of y) = true.
+Proof.
+move=> Ex Ey el eh; rewrite /iv_equals /an_ivl_of Ex Ey /= !(dy_cmp_eq R) -/(lo x) -/(lo y) -/(hi x) -/(hi y).
+by rewrite el eh !eqxx.
+Qed.
+
+(* after the preparation phase the two intervals are separated, or both proper and equal *)
+Lemma cmp_prep_ok x y v w : Den x v -> Den y w ->
+  Sep (cmp_prep x y).1 (cmp_prep x y).2 \/
+  [/\ an_f (cmp_prep x y).1 <> None, an_f (cmp_prep x y).2 <> None,
+      lo (cmp_prep x y).1 = lo (cmp_prep x y).2 & hi (cmp_prep x y).1 = hi (cmp_prep x y).2].
+Proof.
+move=> Dx Dy; rewrite /cmp_prep.
+case Dj: (iv_disjoint _ _) => /=; first by left; exact: disjoint_Sep.
+case Ex: (an_f x) => [p|]; last first.
+  (* x is a point: the intersection is that point *)
+  have Px : iv_pt (an_ivl_of x) = true by rewrite /an_ivl_of Ex.
+  have Lx : iv_lo (an_ivl_of x) = an_a x by rewrite /an_ivl_of Ex.
+  have -> : iv_intersection (an_ivl_of x) (an_ivl_of y) = an_ivl_of x by rewrite /iv_intersection Px.
+  by rewrite Px Lx /= (rwp_point _ Ex); left; exact: sep_point_l.
+case Ey: (an_f y) => [q|]; last first.
+  have Px : iv_pt (an_ivl_of x) = false by rewrite /an_ivl_of Ex.
+  have Py : iv_pt (an_ivl_of y) = true by rewrite /an_ivl_of Ey.
+  have Ly : iv_lo (an_ivl_of y) = an_a y by rewrite /an_ivl_of Ey.
+  have -> : iv_intersection (an_ivl_of x) (an_ivl_of y) = an_ivl_of y by rewrite /iv_intersection Px Py.
+  by rewrite Py Ly /= (rwp_point _ Ey); left; exact: sep_point_r.
+have [_ _ abx] := Den_bounds Ex Dx; have [_ _ aby] := Den_bounds Ey Dy.
+have [P LH [xL yL] Ldef [[xH yH] Hdef]] := intersection_facts Ex Ey abx aby Dj.
+rewrite P /=.
+apply: (prep_both xL yL Ldef xH yH Hdef).
+- exact: (rwp2_facts Ex abx LH).
+- exact: (rwp2_facts Ey aby LH).
+Qed.
+
+(* C07.3: lp_algebraic_number_cmp.  Premise: the polynomial returned by lp_upolynomial_gcd vanishes only at common
+   roots.  When the call returns, the answer has the sign of v - w - in particular EQUAL NUMBERS COMPARE EQUAL
+   whatever polynomials and intervals represent them, and different numbers never compare equal - and both operands
+   (refined, possibly with their polynomials replaced by the gcd) keep their values. *)
+Theorem cmp_sound fuel (gcdf : UPoly.poly -> UPoly.poly -> UPoly.poly) x y c x' y' v w :
+  (forall p q (z : R), root (polyR (gcdf p q)) z -> root (polyR p) z /\ root (polyR q) z) ->
+  Den x v -> Den y w -> an_cmp fuel gcdf x y = Some (c, x', y') ->
+  [/\ ZR (Z.sgn c) = sgr (v - w), Den x' v & Den y' w].
+Proof.
+move=> gdiv Dx Dy E.
+have [Dx' Dy'] := cmp_keeps_values gdiv Dx Dy E; split=> //.
+move: E; rewrite an_cmpE.
+have [D1 D2] : Den (cmp_prep x y).1 v /\ Den (cmp_prep x y).2 w.
+  rewrite /cmp_prep; case: (negb _) => //=; case: (negb _) => /=; split;
+    do ?[apply: refine_with_point_Den] => //.
+have := cmp_prep_ok Dx Dy.
+case: (cmp_prep x y) D1 D2 => x1 y1 /= D1 D2 OK.
+rewrite /cmp_st.
+case Ex: (an_f x1) => [p|]; last first.
+  move=> [<- _ _]; apply: cmp_final_sound => //.
+  by case: OK => // -[]; rewrite Ex.
+case Ey: (an_f y1) => [q|]; last first.
+  move=> [<- _ _]; apply: cmp_final_sound => //.
+  by case: OK => // -[_]; rewrite Ey.
+case Eq: (iv_equals _ _); last first.
+  move=> [<- _ _]; apply: cmp_final_sound => //.
+  by case: OK => // -[_ _ el eh]; rewrite (iv_equals_complete Ex Ey el eh) in Eq.
+have [ea eb] := @iv_equals_proper R _ _ _ _ Ex Ey Eq.
+case S: (Z.ltb _ 0) => /=.
+  move=> [<- _ _].
+  have [-> _ _] := cmp_gcd_branch_sound Ex Ey D1 D2 ea eb (@gdiv p q) S.
+  by rewrite subrr sgr0 ZR0.
+case B: (an_bisect_apart _ _ _) => [[x3 y3]|] //= [<- _ _].
+have [D3 D4] := bisect_apart_Den D1 D2 B.
+have [_ _ ab] := Den_bounds Ex D1.
+apply: cmp_final_sound => //.
+exact: (bisect_apart_Sep Ex Ey ab ea eb B).
+Qed.
+End CmpFull.
+
+(* ------------------------------------------------------------------ the constructor establishes the invariant read by
+   floor / ceiling / is_integer: after `while (size >= 0) refine` the width is < 1/2, and refining with ceil(a)
+   leaves no integer strictly inside *)
+Lemma dyRE (R : rcfType) (d : dyadic) : dyR d = ZR (da d) / ZR (pow2 (dn d)) :> R.
+Proof. by []. Qed.
+
+Section ConstructIntFree.
+Variable R : rcfType.
+Local Notation dyR := (@dyR R).
+Local Notation polyR := (@polyR R).
+Implicit Types (v : R) (x : anum).
+
+Lemma size_core (d : Z) (n : N) : Z.lt 0 d -> Z.lt (z_bits d - Z.of_N n) 0 -> Z.lt (2 * d) (pow2 n).
+Proof.
+move=> d0; rewrite /z_bits; have -> : Z.eqb d 0 = false by lia.
+rewrite Z.abs_eq; last lia.
+have [_ L2] := Z.log2_spec d d0; move=> H.
+have Hn : Z.le (Z.log2 d + 2) (Z.of_N n) by lia.
+have : Z.le (2 ^ (Z.log2 d + 2)) (pow2 n) by rewrite /pow2; apply: Z.pow_le_mono_r; lia.
+have -> : (Z.log2 d + 2 = Z.succ (Z.succ (Z.log2 d)))%ZZ by lia.
+rewrite Z.pow_succ_r; last by have := Z.log2_nonneg d; lia.
+lia.
+Qed.
+
+Lemma dyR_scale (a : Z) (n k : N) : ZR (a * pow2 k)%ZZ / ZR (pow2 (n + k)) = ZR a / ZR (pow2 n) :> R.
+Proof.
+rewrite pow2_add !ZR_mul -mulf_div divff ?mulr1 //; exact: ZR_pow2_neq0.
+Qed.
+
+(* a negative "distance size" means a width below 1/2 *)
+Lemma dy_size_neg (lo hi : dyadic) : dyR lo < dyR hi -> Z.ltb (an_dy_size lo hi) 0 ->
+  dyR hi - dyR lo < 2%:R^-1.
+Proof.
+have two : ZR 2%ZZ = 2%:R :> R by rewrite (_ : 2%ZZ = (1 + 1)%ZZ) // ZR_add ZR1.
+have core (d : Z) (n : N) : 0 < ZR d / ZR (pow2 n) :> R -> Z.ltb (z_bits d - Z.of_N n) 0 ->
+    ZR d / ZR (pow2 n) < 2%:R^-1 :> R.
+  move=> dpos sz; have d0 : Z.lt 0 d.
+    by move: dpos; rewrite pmulr_lgt0 ?invr_gt0 ?ZR_pow2_gt0 // ZR_gt0; lia.
+  have := size_core d0 (proj1 (Z.ltb_lt _ _) sz) => H.
+  rewrite ltr_pdivr_mulr ?ZR_pow2_gt0 // mulrC ltr_pdivl_mulr ?ltr0n // -two -ZR_mul ZR_lt.
+  lia.
+move=> lohi; have pos : 0 < dyR hi - dyR lo by rewrite subr_gt0.
+rewrite /an_dy_size.
+case: (N.eqb_spec (dn lo) (dn hi)) => [e|ne].
+  have E : dyR hi - dyR lo = ZR (da hi - da lo) / ZR (pow2 (dn lo)).
+    by rewrite !dyRE e ZR_sub mulrBl.
+  by rewrite E in pos *; apply: core.
+case: (N.ltb_spec (dn hi) (dn lo)) => [lt|ge].
+  have E : dyR hi - dyR lo = ZR (da hi * pow2 (dn lo - dn hi) - da lo) / ZR (pow2 (dn lo)).
+    rewrite !dyRE ZR_sub mulrBl; congr (_ - _).
+    by rewrite -(dyR_scale (da hi) (dn hi) (dn lo - dn hi)); congr (_ / ZR (pow2 _)); lia.
+  by rewrite E in pos *; apply: core.
+have E : dyR hi - dyR lo = ZR (da hi - da lo * pow2 (dn hi - dn lo)) / ZR (pow2 (dn hi)).
+  rewrite !dyRE ZR_sub mulrBl; congr (_ - _).
+  by rewrite -(dyR_scale (da lo) (dn lo) (dn hi - dn lo)); congr (_ / ZR (pow2 _)); lia.
+by rewrite E in pos *; apply: core.
+Qed.
+
+
+Lemma floor_unique (d : dyadic) (z : Z) : ZR z <= dyR d < ZR z + 1 -> dy_floor_int d = z.
+Proof.
+move=> /andP[z1 z2]; have /andP[f1 f2] := dy_floor_intR R d.
+have : ZR z < ZR (dy_floor_int d + 1)%ZZ :> R by rewrite ZR_add ZR1; ord.
+have : ZR (dy_floor_int d) < ZR (z + 1)%ZZ :> R by rewrite ZR_add ZR1; ord.
+rewrite !ZR_lt; lia.
+Qed.
+Lemma ceil_unique (d : dyadic) (z : Z) : ZR z - 1 < dyR d <= ZR z -> dy_ceiling_int d = z.
+Proof.
+move=> /andP[z1 z2]; have /andP[c1 c2] := dy_ceiling_intR R d.
+have : ZR (z - 1)%ZZ < ZR (dy_ceiling_int d) :> R by rewrite ZR_sub ZR1; ord.
+have : ZR (dy_ceiling_int d - 1)%ZZ < ZR z :> R by rewrite ZR_sub ZR1; ord.
+rewrite !ZR_lt; lia.
+Qed.
+
+Lemma dy_ceiling_dyR (a : dyadic) : dyR (an_dy_ceiling_dy a) = ZR (dy_ceiling_int a).
+Proof.
+rewrite /an_dy_ceiling_dy /dy_ceiling_int; case: (N.ltb_spec 0 (dn a)) => H.
+  by rewrite dyRE /= ZR1 divr1.
+by rewrite dyRE (_ : dn a = 0%num) ?ZR_pow2 ?expr0 ?divr1 //; lia.
+Qed.
+Lemma dy_floor_dyR (a : dyadic) : dyR (an_dy_floor_dy a) = ZR (dy_floor_int a).
+Proof.
+rewrite /an_dy_floor_dy /dy_floor_int; case: (N.ltb_spec 0 (dn a)) => H.
+  by rewrite dyRE /= ZR1 divr1.
+by rewrite dyRE (_ : dn a = 0%num) ?ZR_pow2 ?expr0 ?divr1 //; lia.
+Qed.
+
+(* refinement with a point keeps the integer-free invariant *)
+Lemma rwp_int_free x q v : Den x v -> int_free x -> int_free (an_refine_with_point x q).
+Proof.
+move=> D; have := rwp_shape R x q; rewrite /int_free.
+case E: (an_f x) => [p|] /=; first last.
+  by move=> ->; rewrite E.
+have [_ _ ab] := Den_bounds E D.
+case=> [[-> _]|[-> _ _]|[-> l1 h1 /andP[i1 i2]]|[-> l1 h1 /andP[i1 i2]]] //; first by rewrite E.
+- have := @floor_mono R (an_a x) (an_a (an_refine_with_point x q)).
+  have := @ceiling_mono R (an_b (an_refine_with_point x q)) (an_b x).
+  rewrite -/(lo R x) -/(hi R x) -/(lo R (an_refine_with_point x q)) -/(hi R (an_refine_with_point x q)) l1 h1.
+  by move=> /(_ (lexx _)) A /(_ (ltW i1)) B; lia.
+- have := @floor_mono R (an_a x) (an_a (an_refine_with_point x q)).
+  have := @ceiling_mono R (an_b (an_refine_with_point x q)) (an_b x).
+  rewrite -/(lo R x) -/(hi R x) -/(lo R (an_refine_with_point x q)) -/(hi R (an_refine_with_point x q)) l1 h1.
+  by move=> /(_ (ltW i2)) A /(_ (lexx _)) B; lia.
+Qed.
+
+Lemma shrink_width fuel : forall x y v, Den x v -> an_shrink fuel x = Some y ->
+  match an_f y with None => true | Some _ => hi R y - lo R y < 2%:R^-1 end.
+Proof.
+elim: fuel => [|f IH] x y v D //=; case E: (an_f x) => [p|]; last by move=> [<-]; rewrite E.
+case: (Z.leb_spec 0 (an_dy_size (an_a x) (an_b x))) => H; first exact: IH (refine_Den D).
+move=> [<-]; rewrite E; have [_ _ ab] := Den_bounds E D.
+by apply: dy_size_neg => //; apply/Z.ltb_lt.
+Qed.
+
+(* refining a proper number of width < 1/2 with ceil(a) leaves no integer strictly inside *)
+Lemma ceil_refine_int_free x p v : an_f x = Some p -> Den x v -> hi R x - lo R x < 2%:R^-1 ->
+  int_free (an_refine_with_point x (an_dy_ceiling_dy (an_a x))).
+Proof.
+move=> E D W; have [_ _ ab] := Den_bounds E D.
+have half : (2%:R^-1 : R) < 1 by rewrite invf_lt1 ?ltr0n // ltr1n.
+have bw : hi R x < lo R x + 1 by rewrite -ltr_subl_addl; apply: lt_trans W half.
+have /andP[fa1 fa2] := dy_floor_intR R (an_a x).
+have /andP[ca1 ca2] := dy_ceiling_intR R (an_a x).
+have /andP[cb1 cb2] := dy_ceiling_intR R (an_b x).
+rewrite -/(lo R x) -/(hi R x) in fa1 fa2 ca1 ca2 cb1 cb2.
+set k := dy_ceiling_int (an_a x) in ca1 ca2.
+have := rwp_shape R x (an_dy_ceiling_dy (an_a x)); rewrite E dy_ceiling_dyR -/k /int_free.
+set x2 := an_refine_with_point _ _.
+(* integer facts shared by all cases *)
+have kfa : Z.le (k - 1) (dy_floor_int (an_a x)).
+  have : ZR (k - 1)%ZZ < ZR (dy_floor_int (an_a x) + 1)%ZZ :> R by rewrite ZR_sub ZR_add !ZR1; ord.
+  by rewrite ZR_lt; lia.
+case=> [[-> /not_inside ni]|[-> _ _]|[-> l1 h1 /andP[i1 i2]]|[-> l1 h1 /andP[i1 i2]]] //.
+- rewrite E; case: ni => ni.
+  + (* a is the integer k *)
+    have ak : lo R x = ZR k by ord.
+    have : ZR (dy_ceiling_int (an_b x) - 1)%ZZ < ZR (k + 1)%ZZ :> R.
+      by rewrite ZR_sub ZR_add !ZR1; rewrite ak in bw; ord.
+    have : ZR k < ZR (dy_floor_int (an_a x) + 1)%ZZ :> R by rewrite ZR_add ZR1 -ak.
+    by rewrite !ZR_lt; lia.
+  + have : ZR (dy_ceiling_int (an_b x) - 1)%ZZ < ZR k :> R by rewrite ZR_sub ZR1; ord.
+    by rewrite ZR_lt; lia.
+- (* (k, b) *)
+  have -> : dy_floor_int (an_a x2) = k.
+    by apply: floor_unique; rewrite -/(lo R x2) l1 lexx ltr_addl ltr01.
+  have -> : dy_ceiling_int (an_b x2) = dy_ceiling_int (an_b x).
+    by apply: ceil_unique; rewrite -/(hi R x2) h1 cb1 cb2.
+  have : ZR (dy_ceiling_int (an_b x) - 1)%ZZ < ZR (k + 1)%ZZ :> R.
+    have i1' : lo R x + 1 < ZR k + 1 by rewrite ltr_add2r.
+    by rewrite ZR_sub ZR_add !ZR1; ord.
+  by rewrite ZR_lt; lia.
+- (* (a, k) *)
+  have -> : dy_ceiling_int (an_b x2) = k.
+    by apply: ceil_unique; rewrite -/(hi R x2) h1 lexx ltr_subl_addr ltr_addl ltr01.
+  have -> : dy_floor_int (an_a x2) = dy_floor_int (an_a x).
+    by apply: floor_unique; rewrite -/(lo R x2) l1 fa1 fa2.
+  lia.
+Qed.
+
+(* lp_algebraic_number_construct establishes the invariant *)
+Lemma construct_int_free fuel p lo hi y v :
+  roots (polyR p) (dyR lo) (dyR hi) = [:: v] ->
+  Z.ltb (an_psgn_dy p lo * an_psgn_dy p hi) 0 ->
+  an_construct fuel p lo hi = Some y -> int_free y.
+Proof.
+move=> rt ss; rewrite /an_construct.
+have D0 : Den (mkAN (Some p) lo hi (an_psgn_dy p lo) (an_psgn_dy p hi)) v.
+  by rewrite /Den /=; split=> //; exact: psgn_dyP.
+case S: (an_shrink _ _) => [x1|] // [<-].
+have D1 := shrink_Den D0 S; have W := shrink_width D0 S.
+set x2 := (match an_f x1 with Some _ => _ | None => x1 end).
+have [D2 F2] : Den x2 v /\ int_free x2.
+  rewrite /x2; case E: (an_f x1) W => [q|] W.
+    by split; [exact: refine_with_point_Den | exact: (ceil_refine_int_free E D1 W)].
+  by split=> //; rewrite /int_free E.
+by case: (an_f x2) => // _; apply: rwp_int_free D2 F2.
+Qed.
+
+End ConstructIntFree.
+
+Section NegIntFree.
+Variable R : rcfType.
+Local Notation dyR := (@dyR R).
+Local Notation polyR := (@polyR R).
+
+(* the result of negation satisfies the invariant too (it goes through the constructor) *)
+Lemma neg_int_free fuel x y (v : R) : Den x v -> an_neg fuel x = Some y -> int_free y.
+Proof.
+move=> D; rewrite /an_neg; case E: (an_f x) => [p|]; last by move=> [<-].
+have [U _ _] := Den_bounds E D.
+move: D; rewrite /Den E => -[_ Hsa Hsb ss].
+set q := an_make_lc_positive _.
+have [e [e1 Hq]] := make_lc_positiveR R (an_subst_x_neg p).
+have e0 : e != 0 by case: e1 => ->; rewrite ?oppr_eq0 oner_neq0.
+have ee : e * e = 1 by case: e1 => ->; rewrite ?mulrNN mulr1.
+have hq (d : dyadic) : sgr (polyR q).[dyR (an_dy_neg1 d)] = sgr e * sgr (polyR p).[dyR d].
+  by rewrite Hq polyR_subst_x_neg hornerZ sgrM horner_comp hornerN hornerX dy_neg1R opprK.
+apply: (@construct_int_free R _ _ _ _ _ (- v)).
+  apply/urootP; rewrite Hq polyR_subst_x_neg !dy_neg1R.
+  by apply: uroot_scale e0 _; apply: uroot_comp_neg.
+suff -> : (an_psgn_dy q (an_dy_neg1 (an_b x)) * an_psgn_dy q (an_dy_neg1 (an_a x)) = an_sb x * an_sa x)%ZZ by lia.
+apply: (@ZR_inj R); rewrite !ZR_mul !psgn_dyP !hq Hsa Hsb.
+by rewrite mulrACA -sgrM ee sgr1 mul1r.
+Qed.
+End NegIntFree.
